@@ -98,6 +98,26 @@ def do_op(op, base, target, version, metafile, scratch, plen=1, alt=False, route
             edit_torrent(metafile, {"comment": "edited", "announce": ["http://x.example/a"]})
             with open(metafile, "rb") as fh:
                 return {"status": "ok", "sig": sha1(fh.read()).hex()}
+        if op == "editsame":
+            # an edit that leaves the metafile's LENGTH and its modification time as they were (same-length values,
+            # written within the same clock tick): nothing but its bytes says that it changed
+            from torrentfile.edit import edit_torrent
+            import pyben
+            st0 = os.stat(metafile)
+            cur = pyben.load(metafile)
+            swap = lambda t: t[:-1] + ("b" if t[-1] != "b" else "c")
+            req = {}
+            if isinstance(cur.get("info", {}).get("comment"), str) and cur["info"]["comment"]:
+                req["comment"] = swap(cur["info"]["comment"])
+            if isinstance(cur.get("announce"), str) and cur["announce"]:
+                req["announce"] = [swap(cur["announce"])]
+            if not req:
+                req = {"comment": "edited"}
+            edit_torrent(metafile, req)
+            if os.path.getsize(metafile) == st0.st_size:
+                os.utime(metafile, ns=(st0.st_atime_ns, st0.st_mtime_ns))
+            with open(metafile, "rb") as fh:
+                return {"status": "ok", "sig": sha1(fh.read()).hex()}
         if op == "rebuild":
             from torrentfile.rebuild import Assembler
             dest = os.path.join(scratch, "dest")
